@@ -64,7 +64,18 @@ func ruleStreamLayersReadOnly(c *Ctx) {
 					return
 				}
 				for _, l := range leafSources(rv[0]) {
-					if l == "0" || layerInnerCount.MatchString(l) {
+					if layerInnerCount.MatchString(l) {
+						continue
+					}
+					if l == "0" {
+						// a count of 0 goes with the layer's OWN refusal; paired with the wrapped reader's error it
+						// drops the octets that reader delivered together with that error (io.Reader allows n > 0 with
+						// err != nil; crypto/tls does it for the record in front of a close_notify)
+						for _, e := range leafSources(rv[1]) {
+							if layerInnerErr.MatchString(e) {
+								bad = append(bad, "0 together with the wrapped reader's error "+e)
+							}
+						}
 						continue
 					}
 					bad = append(bad, l)
@@ -77,6 +88,7 @@ func ruleStreamLayersReadOnly(c *Ctx) {
 }
 
 var layerInnerCount = regexp.MustCompile(`^invoke:[A-Za-z.]*Read#0$`)
+var layerInnerErr = regexp.MustCompile(`^invoke:[A-Za-z.]*Read#1$`)
 
 func byteSliceIO(sig *types.Signature) bool {
 	if sig.Params().Len() != 1 || sig.Results().Len() != 2 {
